@@ -377,8 +377,15 @@ Definition step04 (ifs : iftab) (k : N) (t : t04) (it : iter) (wake : option N) 
   let targets := t4_targets t ++ map (map lower) (flat_map (fun d => ptr_targets_of (d_data d)) (i_dgrams it)) in
   (* Q1: follow-up tries that are due: the expected question must be asked; tries 1 and 2 are
      followed by another try 500 ms later, the chain ends when nothing is missing *)
+  let sat inst := match expected_followup (sp_c sp2) inst with
+                  | Some q => q_mem (map lower (name_labels (fst q)), snd q) (ob_qs ob)
+                  | None => true
+                  end in
   let due := filter (fun o => fst (snd o) <=? now) (t4_oblig t) in
-  let notdue := filter (fun o => negb (fst (snd o) <=? now)) (t4_oblig t) in
+  (* an obligation marked stale belongs to an instance that may still have a chain running from
+     an earlier episode (no second chain is started): it is met by the expected question in ANY
+     iteration up to its due time, is not chained and needs no wake-up of its own *)
+  let notdue := filter (fun o => negb (fst (snd o) <=? now) && negb (fst (snd (snd o)) && sat (fst o))) (t4_oblig t) in
   let fsQ1 := flat_map (fun o =>
                 match expected_followup (sp_c sp2) (fst o) with
                 | Some q => if q_mem (map lower (name_labels (fst q)), snd q) (ob_qs ob) then []
@@ -388,6 +395,7 @@ Definition step04 (ifs : iftab) (k : N) (t : t04) (it : iter) (wake : option N) 
   let chained := flat_map (fun o =>
                    match expected_followup (sp_c sp2) (fst o) with
                    | Some q => if q_mem (map lower (name_labels (fst q)), snd q) (ob_qs ob) && (snd (snd (snd o)) <? 3)
+                                  && negb (fst (snd (snd o)))
                                then [(fst o, (now + 500, (fst (snd (snd o)), snd (snd (snd o)) + 1)))]
                                else []
                    | None => []
@@ -419,13 +427,15 @@ Definition step04 (ifs : iftab) (k : N) (t : t04) (it : iter) (wake : option N) 
     fold_left (fun (acc : list (bytes * (N * (bool * N))) * list bytes) inst =>
                  let '(ob_, op_) := acc in
                  if is_up inst || mem inst resolved_now || existsb (fun o => beq (fst o) inst) ob_ then acc
+                 else if mem inst op_ && sat inst then acc
                  else (ob_ ++ [(inst, (now + 500, (mem inst op_, 1)))], if mem inst op_ then op_ else op_ ++ [inst]))
               (dedup newfound) (notdue ++ chained, open1) in
-  let fsW := flat_map (fun o =>
-               match wake with
-               | Some w => if w <=? fst (snd o) then [] else [F04_wake k (fst o) (fst (snd (snd o)))]
-               | None => [F04_wake k (fst o) (fst (snd (snd o)))]
-               end) oblig2 in
+  let fsW := flat_map (fun o : bytes * (N * (bool * N)) =>
+               if fst (snd (snd o)) then []
+               else match wake with
+                    | Some w => if w <=? fst (snd o) then [] else [F04_wake k (fst o) false]
+                    | None => [F04_wake k (fst o) false]
+                    end) oblig2 in
   (* Q2 / Q4 *)
   let any1 := filter (fun x => negb (existsb (relevant (fst x) []) cur)) (t4_any t) in
   let any1 := if is_nil (filter (fun c => match c with CBrowse _ _ => true | _ => false end) (i_calls it))
